@@ -1,4 +1,12 @@
 #!/bin/bash
 # mk_prefix_patch.sh <fix-commit> <out.patch>: a must-fail canary that re-introduces a fixed defect
+# (reverse of the fix commit, restricted to the files that commit touched)
 c=$1; out=$2
-cd /repo && git diff $c~1 $c > /tmp/fix.diff && git apply -R /tmp/fix.diff && git diff > $out; git checkout -- . ; echo "wrote $out ($(wc -l < $out) lines)"
+cd /repo || exit 1
+files=$(git diff --name-only $c~1 $c)
+git diff $c~1 $c -- $files > /tmp/fix.diff
+
+git apply -R /tmp/fix.diff && git diff -- $files > $out
+git checkout -- $files
+
+echo "wrote $out ($(wc -l < $out) lines)"
